@@ -53,7 +53,9 @@ def _explore_one(job):
         if job.get("concrete") is not None:
             obs_dump.append(_obs_to_plain(it, obs))
 
-    ex = IN.Explorer(P, SW.make_models, loop_bound=12, max_paths=job.get("max_paths", 20000), budget_s=job.get("budget_s", 150))
+    # the budget only matters for a shape that is unexpectedly slow (a loaded or slower machine): generous on purpose,
+    # exhausting it is inconclusive, never success
+    ex = IN.Explorer(P, SW.make_models, loop_bound=12, max_paths=job.get("max_paths", 60000), budget_s=job.get("budget_s", 600))
     t0 = time.time()
     try:
         viol, outcomes = ex.explore(scenario)
